@@ -10,7 +10,7 @@ var (
 
 // SetClock pins the simulated clock; ClearClock returns to the real one.
 func SetClock(t time.Time) { clockSet, clockNow = true, t }
-func ClearClock()         { clockSet = false }
+func ClearClock()          { clockSet = false }
 
 // ClockReads counts reads of the clock since the last ResetClockReads.
 func ClockReads() uint64 { return clockReads }
